@@ -148,7 +148,8 @@ REG.contract(
     ensures=['ed_wf(self)', 'implies(not result, ed_complete(self))', f'implies(result, not isnone({EM}))',
              f'implies(isnone(old({EM})), isnone({EM}))',
              f'implies(result, {D} >= 0)',
-             'implies(old(ed_complete(self)), not result)'],
+             'implies(old(ed_complete(self)), not result)',
+             f'implies(not old(ed_complete(self)), {D} == old({D}) + 1)'],
     loops={0: LoopSpec(index='j', modifies=['edit_matrix@self', 'costs@self', 'path_costs@self'], invariant=[
         'ed_base(self)', 'ed_shape(self)', 'ed_typed(self)', 'ed_cellwf(self)', f'not isnone({EM})', 'ed_path(self)',
         f'-1 <= self._fringe_row and self._fringe_row <= {M} and 0 <= self._fringe_col and self._fringe_col <= {N}',
@@ -166,16 +167,14 @@ REG.contract(
     'EditDistance._cleanup', params={'self': 'ref[EditDistance]'}, allocates=True,
     requires=['ed_wf(self)'], modifies=MOD_SELF,
     ensures=['ed_wf(self)', EDITS_KEPT, f'implies(isnone(old({EM})), isnone({EM}))',
-             f'implies(old(ed_complete(self)), isnone({EM}) or seqeq({EM}, old({EM})))',
              'implies(old(ed_complete(self)), ed_complete(self))'])
 REG.contract(
     'EditDistance.bounds', params={'self': 'ref[EditDistance]'}, returns='rec[Range]', allocates=True,
     requires=['ed_wf(self)'], modifies=MOD_SELF,
     ensures=['ed_wf(self)', EDITS_KEPT, f'implies(isnone(old({EM})), isnone({EM}))',
              # bounds() changes the typestate only when the matrix is complete (it finalises the script)
-             f'implies(not old(ed_complete(self)), seqeq({EM}, old({EM})) and isnone(self._EditDistance__edits) == isnone(old(self._EditDistance__edits)) '
+             f'implies(not old(ed_complete(self)), not ed_complete(self) and isnone(self._EditDistance__edits) == isnone(old(self._EditDistance__edits)) '
              f'and self._fringe_row == old(self._fringe_row) and self._fringe_col == old(self._fringe_col))',
-             f'implies(old(ed_complete(self)), isnone({EM}) or seqeq({EM}, old({EM})))',
              'implies(old(ed_complete(self)), ed_complete(self))',
              'result.lower_bound <= result.upper_bound'],
     ghost_before={
@@ -192,7 +191,6 @@ REG.contract(
     ensures=[
         'ed_wf(self)', 'notnone(self._EditDistance__edits)', EDITS_KEPT,
         f'implies(isnone(old({EM})), isnone({EM}))',
-        f'implies(old(ed_complete(self)), isnone({EM}) or seqeq({EM}, old({EM})))',
         f'implies({M} > 0 or {N} > 0, ed_complete(self))',
         # the script: prefix matches, then the stored script reversed
         'len(result) == len(self.shared_prefix) + len(self._EditDistance__edits)',
@@ -209,7 +207,6 @@ REG.contract(
             f'forall(j, 0, {S}, typeis(reversed_suffix[j], "Match") and reversed_suffix[j].from_node == self.reversed_shared_suffix[j][0] '
             f'and reversed_suffix[j].to_node == self.reversed_shared_suffix[j][1])',
             f'implies(isnone(old({EM})), isnone({EM}))',
-            f'implies(old(ed_complete(self)), isnone({EM}) or seqeq({EM}, old({EM})))',
             'len(gR) == 0 and len(gC) == 0',
         ]),
         1: LoopSpec(variant='row + col', modifies=['costs@self', 'path_costs@self', 'lb', 'ub', 'fuel'],
@@ -218,7 +215,6 @@ REG.contract(
             f'not isnone({EM})', 'ed_complete(self)', 'isnone(self._EditDistance__edits)',
             f'0 <= row and row <= {M} and 0 <= col and col <= {N}',
             'ed_pathof(self, reversed_suffix, gR, gC, row, col)',
-            f'implies(old(ed_complete(self)), seqeq({EM}, old({EM})))',
         ]),
     })
 
@@ -228,13 +224,11 @@ REG.contract(
     requires=['ed_wf(self)'], modifies=MOD_SELF,
     ensures=['ed_wf(self)', EDITS_KEPT, f'implies(isnone(old({EM})), isnone({EM}))',
              f'implies(not result and ({M} > 0 or {N} > 0), ed_complete(self))',
-             'implies(old(ed_complete(self)), ed_complete(self))',
-             f'implies(old(ed_complete(self)), isnone({EM}) or seqeq({EM}, old({EM})))'],
+             'implies(old(ed_complete(self)), ed_complete(self))'],
     loops={
         0: LoopSpec(variant=None, modifies=MOD_SELF, invariant=[
             'ed_wf(self)', EDITS_KEPT, f'implies(isnone(old({EM})), isnone({EM}))',
             'implies(old(ed_complete(self)), ed_complete(self))',
-            f'implies(old(ed_complete(self)), isnone({EM}) or seqeq({EM}, old({EM})))',
             f'{M} > 0 or {N} > 0',
         ]),
         1: LoopSpec(index='j', modifies=['costs@self', 'path_costs@self', 'lb', 'ub', 'fuel'], invariant=[
